@@ -202,8 +202,8 @@ fn interpreted_strategy() -> BoxedStrategy<DeclCase> {
 
 pub fn run_c02(cx: &Cx) -> PropResult {
     let all = batch().all();
-    let per_decl = cx.n(200, 4_000);
-    let n_interp = cx.n(4_000, 200_000);
+    let per_decl = cx.n(1_000, 20_000);
+    let n_interp = cx.n(20_000, 600_000);
     let acc = parallel(cx, &|shard, acc| {
         for (i, d) in all.iter().enumerate() {
             if i % cx.shards != shard {
@@ -413,8 +413,8 @@ fn as_written_fields(as_written: &Val, fallback: &Vec<Val>) -> Vec<Val> {
 
 pub fn run_c13(cx: &Cx) -> PropResult {
     let fams = &batch().families;
-    let per_family = cx.n(1_500, 40_000);
-    let n_dyn = cx.n(5_000, 250_000);
+    let per_family = cx.n(8_000, 200_000);
+    let n_dyn = cx.n(25_000, 800_000);
     let acc = parallel(cx, &|shard, acc| {
         for (i, fam) in fams.iter().enumerate() {
             if i % cx.shards != shard {
@@ -633,8 +633,8 @@ fn transient_history_strategy() -> BoxedStrategy<TransientCase> {
 
 pub fn run_c14(cx: &Cx) -> PropResult {
     let all: Vec<Arc<Decl>> = batch().all().into_iter().filter(|d| decl_features(d).iter().any(|f| *f == "transient field" || *f == "transient constructor")).collect();
-    let per_decl = cx.n(300, 6_000);
-    let n_dyn = cx.n(5_000, 250_000);
+    let per_decl = cx.n(1_500, 30_000);
+    let n_dyn = cx.n(25_000, 800_000);
     let acc = parallel(cx, &|shard, acc| {
         for (i, d) in all.iter().enumerate() {
             if i % cx.shards != shard {
